@@ -373,6 +373,19 @@ func (d *Driver) yield(instanceID, site string) {
 		// (also an ordinary yield site: falls through)
 	}
 	d.mu.Lock()
+	if instanceID != "" {
+		// a goroutine that passes one of the library's own yield sites works for that instance,
+		// whether it is parked here or not (its later parks at lock sites are accounted to it)
+		g := goid()
+		if i, ok := d.gidInst[g]; !ok || d.insts[i].cfg.ID != instanceID {
+			for _, in := range d.insts {
+				if in.cfg.ID == instanceID {
+					d.gidInst[g] = in.idx
+					break
+				}
+			}
+		}
+	}
 	if d.ending || d.plan.Sched.YieldProb <= 0 || !d.rYield.Bool(d.plan.Sched.YieldProb) {
 		d.mu.Unlock()
 		return
